@@ -116,6 +116,11 @@ func (ex *Exec) run(fn *ssa.Function, args []Value, free []Value) (ret Value) {
 			if !ok {
 				panic(r)
 			}
+			if gp.Stack == nil {
+				for _, f := range ex.callStack {
+					gp.Stack = append(gp.Stack, shortFn(f))
+				}
+			}
 			prev := ex.panicking
 			ex.panicking = gp
 			ex.runDefers(fr)
